@@ -7,8 +7,8 @@ import (
 
 	"github.com/gagliardetto/solana-go"
 	"github.com/ipfs/go-cid"
-	"github.com/rpcpool/yellowstone-faithful/blocktimeindex"
 	cidlink "github.com/ipld/go-ipld-prime/linking/cid"
+	"github.com/rpcpool/yellowstone-faithful/blocktimeindex"
 	"github.com/rpcpool/yellowstone-faithful/ipld/ipldbindcode"
 	"github.com/rpcpool/yellowstone-faithful/iplddecoders"
 )
@@ -28,11 +28,12 @@ const (
 )
 
 type verifC03Obj struct {
-	c      cid.Cid
-	kind   int
-	slot   uint64           // block: its slot; transaction: slot of its block
-	parent uint64           // block: parent slot
-	sig    solana.Signature // transaction: first signature
+	c         cid.Cid
+	kind      int
+	slot      uint64           // block: its slot; transaction: slot of its block
+	parent    uint64           // block: parent slot
+	sig       solana.Signature // transaction: first signature
+	blocktime uint64           // block: distinct per stored block (identifies the block in JSON replies)
 }
 
 type verifC03Memo struct {
@@ -79,14 +80,16 @@ func verifC03NewEpoch(num uint64, nBlocks, nTxs int) *Epoch {
 	st := &verifC03Store{}
 	lo, hi := num*432000, num*432000+431999
 	for i := 0; i < nBlocks; i++ {
-		o := &verifC03Obj{c: verifC03Cid(byte(0x10*(num+1)) + byte(i)), kind: verifC03KindBlock}
+		o := &verifC03Obj{c: verifC03Cid(byte(0x10*(num+1)) + byte(i)), kind: verifC03KindBlock, blocktime: 1700000000 + num*16 + uint64(i)}
 		o.slot = verifU64("storedSlot")
 		verifAssume(o.slot >= lo && o.slot <= hi)
 		for _, p := range st.objs {
 			verifAssume(p.slot != o.slot)
 		}
-		o.parent = verifU64("storedParent")
-		verifAssume(o.parent < o.slot || o.slot == 0)
+		if verifParam("parents", 1) == 1 {
+			o.parent = verifU64("storedParent")
+			verifAssume(o.parent < o.slot || o.slot == 0)
+		}
 		st.objs = append(st.objs, o)
 	}
 	for i := 0; i < nTxs; i++ {
@@ -171,7 +174,7 @@ func verifC03DecodeBlock(data []byte) (*ipldbindcode.Block, error) {
 	return &ipldbindcode.Block{
 		Kind:    verifC03KindBlock,
 		Slot:    int(o.slot),
-		Meta:    ipldbindcode.SlotMeta{Parent_slot: int(o.parent), Blocktime: 1700000000},
+		Meta:    ipldbindcode.SlotMeta{Parent_slot: int(o.parent), Blocktime: int(o.blocktime)},
 		Rewards: cidlink.Link{Cid: DummyCID},
 	}, nil
 }
